@@ -20,8 +20,8 @@ import SigModel.Spec.Metrics
 namespace SigModel.Props.C09
 open SigModel.Promql
 
-/-- guard: every series of the query satisfies `LabelSafe` (no ',' '{' in the metric name and the label
-values, no ',' ':' '{' in label names; nothing about the grouping fields or about label names being
+/-- guard: every series of the query satisfies `LabelSafe` (no ',' '{' in the metric name, no ',' in the label
+values — a '{' there is fine since the repair c09-14, see `metricNameOfOld_brace_counterexample` —, no ',' ':' '{' in label names; nothing about the grouping fields or about label names being
 suffixes of each other — that part of the guard fell with the fix of ExtractGroupByFieldsFromSeriesId) -/
 abbrev AllSafe (q : Query) (ss : List Series) : Prop := Lemmas.C09.AllSafe q ss
 
@@ -89,6 +89,14 @@ next to the field `a`; metric name `a:m` with field `a`), and excludes the witne
 example : LabelSafe [109] [([98, 97], [49]), ([97], [50])] := by decide
 example : LabelSafe [97, 58, 109] [([98], [49]), ([97], [50])] := by decide
 example : ¬ LabelSafe [109] [([97], [49, 44, 98, 58, 50])] := by decide
+/-- a label value with '{' (route="/{i}") is inside the guard … -/
+example : LabelSafe [109] [([114], [47, 123, 105, 125])] := by decide
+
+/-- … because the metric name now ends at the FIRST "{" of the id; before the repair c09-14 the whole id
+`m{r:/{i},` was taken for the metric name (known finding promql-group/value-contains-separator for '{', repaired). -/
+theorem metricNameOfOld_brace_counterexample :
+    metricNameOf (seriesIdOf [109] [([114], [47, 123, 105, 125])]) = [109] ∧
+    metricNameOfOld (seriesIdOf [109] [([114], [47, 123, 105, 125])]) ≠ [109] := by decide
 /-- regression witnesses: `m{ba="1",a="2"}` by (a) is `m{a:2`; `a:m{b="1",a="2"}` by (a) is `a:m{a:2` -/
 example : extractGroupKey [[97]] false (seriesIdOf [109] [([98, 97], [49]), ([97], [50])]) = [109, 123, 97, 58, 50] := by
   decide
@@ -281,9 +289,10 @@ example : bucket 119 60 = 60 ∧ bucket 120 60 = 120 ∧ bucket 59 60 = 0 := by 
 
 /-! ## 6. binary operators between two result vectors match label sets
 
-Model: SigModel/Model/PromqlBin.lean (HelperQueryArithmeticAndLogical, vector–vector, no on()/ignoring()),
-tied by the suite `promqlbin`.  A group id is the metric name followed by the label part; the code finds the
-partner of a left series by cutting the id at len(MetricName) and prefixing the right metric name. -/
+Model: SigModel/Model/PromqlBin.lean (HelperQueryArithmeticAndLogical, vector–vector, no on()/ignoring(), with the
+pending repair c09-15), tied by the suite `promqlbin`.  A group id is the metric name followed by the label part; the
+code cuts the id at len(MetricName) and compares the label parts in a canonical form (`canonLabel`: items sorted, no
+empty items), so that neither the order of the labels nor a comma behind the last one matters. -/
 
 section binop
 open SigModel.PromqlBin
@@ -293,53 +302,76 @@ open SigModel.PromqlBin
 theorem cutLabel_is_label_part (name part : Str) : cutLabel name (name ++ part) = part :=
   Lemmas.C09bin.cutLabel_append name part
 
-/-- … and the partner id is the right metric name followed by the same label part. -/
-theorem partner_is_same_label_part (lname rname part : Str) :
-    partnerId lname rname (lname ++ part) = rname ++ part :=
-  Lemmas.C09bin.partnerId_append lname rname part
-
-/-- C09.6b arithmetic, comparison and `and` (every operator but or / unless), for ALL vectors whose left ids start
-with the left metric name: the answer holds exactly the left series whose LABEL PART also occurs on the right —
-matching is equality of label parts, whatever bytes they contain and whatever the two metric names are. -/
-theorem binop_matches_label_parts (op : Op) (b : Bool) (l r : Res) (hop : op ≠ .or ∧ op ≠ .unless) (part : Str) :
-    l.name ++ part ∈ outIds (binop op b l r) ↔ l.name ++ part ∈ vecIds l ∧ r.name ++ part ∈ vecIds r := by
-  rw [Lemmas.C09bin.mem_binop_match op b l r hop, Lemmas.C09bin.partnerId_append]
+/-- C09.6b arithmetic, comparison and `and` (every operator but or / unless), for ALL left vectors and all right
+vectors whose ids start with the right metric name (and are not empty): the answer holds exactly the left series
+whose label part has the same canonical form as the label part of some right series — whatever bytes the label parts
+contain and whatever the two metric names are. -/
+theorem binop_matches_label_sets (op : Op) (b : Bool) (l r : Res) (hop : op ≠ .or ∧ op ≠ .unless)
+    (hr : wellFormed r) (hne : ([] : Str) ∉ vecIds r) (part : Str) :
+    l.name ++ part ∈ outIds (binop op b l r) ↔
+      l.name ++ part ∈ vecIds l ∧ ∃ q, r.name ++ q ∈ vecIds r ∧ canonLabel q = canonLabel part := by
+  rw [Lemmas.C09bin.mem_binop_match op b l r hop hne, Lemmas.C09bin.cutLabel_append]
+  constructor
+  · rintro ⟨h1, _, rid, hrid, _, hc⟩
+    obtain ⟨q, rfl⟩ := hr rid hrid
+    rw [Lemmas.C09bin.cutLabel_append] at hc
+    exact ⟨h1, q, hrid, hc⟩
+  · rintro ⟨h1, q, hq, hc⟩
+    refine ⟨h1, by simp, r.name ++ q, hq, by simp, ?_⟩
+    rw [Lemmas.C09bin.cutLabel_append]
+    exact hc
 
 /-- … and nothing else is in the answer: every answer id is a left id. -/
-theorem binop_ids_are_left_ids (op : Op) (b : Bool) (l r : Res) (hop : op ≠ .or ∧ op ≠ .unless) (id : Str)
-    (h : id ∈ outIds (binop op b l r)) : id ∈ vecIds l :=
-  ((Lemmas.C09bin.mem_binop_match op b l r hop id).1 h).1
+theorem binop_ids_are_left_ids (op : Op) (b : Bool) (l r : Res) (hop : op ≠ .or ∧ op ≠ .unless)
+    (hne : ([] : Str) ∉ vecIds r) (id : Str) (h : id ∈ outIds (binop op b l r)) : id ∈ vecIds l :=
+  ((Lemmas.C09bin.mem_binop_match op b l r hop hne id).1 h).1
 
-/-- C09.6c `unless` keeps exactly the left series whose label part does NOT occur on the right (right ids
-well-formed: they start with the right metric name). -/
-theorem unless_matches_label_parts (b : Bool) (l r : Res) (hr : wellFormed r) (part : Str) :
-    l.name ++ part ∈ outIds (binop .unless b l r) ↔ l.name ++ part ∈ vecIds l ∧ r.name ++ part ∉ vecIds r := by
-  rw [Lemmas.C09bin.mem_binop_unless, Lemmas.C09bin.mem_unlessDeleted l r hr]
+/-- C09.6c `unless` keeps exactly the left series whose label set does NOT occur on the right. -/
+theorem unless_matches_label_sets (b : Bool) (l r : Res) (hr : wellFormed r) (part : Str) :
+    l.name ++ part ∈ outIds (binop .unless b l r) ↔
+      l.name ++ part ∈ vecIds l ∧ ¬ ∃ q, r.name ++ q ∈ vecIds r ∧ canonLabel q = canonLabel part := by
+  rw [Lemmas.C09bin.mem_binop_unless, Lemmas.C09bin.labelSetOf_append, Lemmas.C09bin.mem_rightLabelSets r hr]
 
 /-- C09.6d `a and b` and `a unless b` PARTITION the left vector: every left series is in exactly one of them
-(both vectors well-formed; no assumption on the bytes of names and label parts). -/
-theorem and_unless_partition (b : Bool) (l r : Res) (hl : wellFormed l) (hr : wellFormed r) (id : Str) :
+(both vectors well-formed, no empty right id; no assumption on the bytes of names and label parts). -/
+theorem and_unless_partition (b : Bool) (l r : Res) (hl : wellFormed l) (hr : wellFormed r)
+    (hne : ([] : Str) ∉ vecIds r) (id : Str) :
     (id ∈ vecIds l ↔ (id ∈ outIds (binop .and b l r) ∨ id ∈ outIds (binop .unless b l r))) ∧
     ¬ (id ∈ outIds (binop .and b l r) ∧ id ∈ outIds (binop .unless b l r)) := by
-  have hand := fun part => binop_matches_label_parts .and b l r (by decide) part
-  have hunl := fun part => unless_matches_label_parts b l r hr part
+  have hand := fun part => binop_matches_label_sets .and b l r (by decide) hr hne part
+  have hunl := fun part => unless_matches_label_sets b l r hr part
   constructor
   · constructor
     · intro h
       obtain ⟨p, rfl⟩ := hl id h
-      by_cases hp : r.name ++ p ∈ vecIds r
+      by_cases hp : ∃ q, r.name ++ q ∈ vecIds r ∧ canonLabel q = canonLabel p
       · exact Or.inl ((hand p).2 ⟨h, hp⟩)
       · exact Or.inr ((hunl p).2 ⟨h, hp⟩)
     · rintro (h | h)
-      · exact binop_ids_are_left_ids .and b l r (by decide) id h
+      · exact binop_ids_are_left_ids .and b l r (by decide) hne id h
       · exact ((Lemmas.C09bin.mem_binop_unless b l r id).1 h).1
   · rintro ⟨h1, h2⟩
-    have hid := binop_ids_are_left_ids .and b l r (by decide) id h1
+    have hid := binop_ids_are_left_ids .and b l r (by decide) hne id h1
     obtain ⟨p, rfl⟩ := hl id hid
     exact ((hunl p).1 h2).2 ((hand p).1 h1).2
 
+/-- the canonical form does not see the order of the labels nor a comma behind the last one:
+`{k:v,dc:x,`  `{dc:x,k:v,`  `{dc:x,k:v`  ("k" = 107, "v" = 118, "d" = 100, "c" = 99, "x" = 120) … -/
+example : canonLabel [123, 107, 58, 118, 44, 100, 99, 58, 120, 44] = canonLabel [123, 100, 99, 58, 120, 44, 107, 58, 118, 44] ∧
+          canonLabel [123, 100, 99, 58, 120, 44, 107, 58, 118, 44] = canonLabel [123, 100, 99, 58, 120, 44, 107, 58, 118] := by
+  decide +kernel
+
+/-- … while the comparison of id STRINGS before the repair c09-15 missed the partner as soon as one operand carried a
+matcher on `k` (its ids then start with `k:`): a{k:v,dc:x, looks for b{k:v,dc:x, and the right vector has b{dc:x,k:v,
+(known findings binop-label-order / binop-trailing-comma, repaired). -/
+theorem partnerIdOld_label_order_counterexample :
+    partnerIdOld [97] [98] [97, 123, 107, 58, 118, 44, 100, 99, 58, 120, 44] ≠ [98, 123, 100, 99, 58, 120, 44, 107, 58, 118, 44] ∧
+    partnerId [97] ([98], [[98, 123, 100, 99, 58, 120, 44, 107, 58, 118, 44]]) [97, 123, 107, 58, 118, 44, 100, 99, 58, 120, 44]
+      = [98, 123, 100, 99, 58, 120, 44, 107, 58, 118, 44] := by
+  decide +kernel
+
 /-- non-vacuity / the seeded input class: hits{route:/api/{id}, on both sides is matched (label value with '{');
-bytes: "h" = 104, "e" = 101, "{route:/{x}," abbreviated as [123, 47, 123, 120, 125, 44]. -/
+bytes: "h" = 104, "e" = 101, "{/{x}," abbreviated as [123, 47, 123, 120, 125, 44]. -/
 example :
     outIds (binop .div false
       { name := [104], series := [([104, 123, 47, 123, 120, 125, 44], [(10, 40)])] }
